@@ -218,20 +218,24 @@ func (ra *RouteAuthenticator) Authenticate(req *http.Request, route *MatchedRout
 	// iterate in proper order
 	var lastResult interface{}
 	for _, scheme := range ra.Schemes {
-		if authenticator, ok := ra.Authenticator[scheme]; ok {
-			applies, princ, err := authenticator.Authenticate(&security.ScopedAuthRequest{
-				Request:        req,
-				RequiredScopes: ra.Scopes[scheme],
-			})
-			if !applies {
-				return false, nil, nil
-			}
-			if err != nil {
-				route.Authenticator = ra
-				return true, nil, err
-			}
-			lastResult = princ
+		authenticator, ok := ra.Authenticator[scheme]
+		if !ok {
+			// a scheme without a registered authenticator can't find credentials:
+			// this set of requirements can't be satisfied
+			return false, nil, nil
 		}
+		applies, princ, err := authenticator.Authenticate(&security.ScopedAuthRequest{
+			Request:        req,
+			RequiredScopes: ra.Scopes[scheme],
+		})
+		if !applies {
+			return false, nil, nil
+		}
+		if err != nil {
+			route.Authenticator = ra
+			return true, nil, err
+		}
+		lastResult = princ
 	}
 	route.Authenticator = ra
 	return true, lastResult, nil
